@@ -5,6 +5,7 @@
 From Coq Require Import List String Bool QArith Reals.
 Import ListNotations.
 Require Import Py ListsGen ConstGen AlgebraGen AlgebraSpec IfaceSpec Sem Term Poly Tactics PolyDomain PolySpec TermFacts PolyFacts TacticsFacts PolyDomainFacts EqFacts PolyKeepFacts.
+Require Import PyDict TermGen TermGenCore.
 
 (* equal iff input lists, output lists, assumptions and guarantees are all equal (any domain) *)
 Theorem C19_contract_eq_fields :
@@ -78,6 +79,24 @@ Theorem C19_term_copy :
   forall t : pterm, wft' t -> term_eqb_p (term_copy t) t = true /\ term_copy t = t.
 Proof. exact @term_copy_eq. Qed.
 Print Assumptions C19_term_copy.
+
+(* T1 tie: PolyhedralTerm.__eq__ as translated from polyhedra.py on this run IS the model's term equality *)
+Theorem C19_code_term_eq :
+  forall t1 t2 : pterm, PolyhedralTerm_eq t1 t2 = ret (term_eqb_p t1 t2).
+Proof. exact @eq_eq. Qed.
+Print Assumptions C19_code_term_eq.
+
+(* T1 tie: PolyhedralTerm.copy as translated from polyhedra.py on this run IS the model's copy *)
+Theorem C19_code_term_copy :
+  forall t : pterm, wft t -> PolyhedralTerm_copy t = term_copy t.
+Proof. exact @copy_eq. Qed.
+Print Assumptions C19_code_term_copy.
+
+(* T1 tie: the constructor (drops zero coefficients) as translated IS mk_term *)
+Theorem C19_code_term_init :
+  forall (vs : pvars) (c : Q), NoDup (keys vs) -> PolyhedralTerm_init vs c = mk_term vs c.
+Proof. exact @init_eq. Qed.
+Print Assumptions C19_code_term_init.
 
 (* equal lists have equal key lists *)
 Theorem C19_list_eq_keys :
